@@ -87,14 +87,21 @@ func (im *impl) exec(op string) string {
 			if err := im.t.Prove(unhex(w[1]), 0, proof); err != nil {
 				return "error " + err.Error()
 			}
+			// the proof's elements (a set keyed by hash), in the order of their hashes
+			var nodes []string
+			for _, k := range proof.Keys() {
+				nodes = append(nodes, fmt.Sprintf("%x", k))
+			}
+			sort.Strings(nodes)
+			ns := " nodes=" + strings.Join(nodes, ",")
 			val, _, err := trie.VerifyProof(im.t.Hash(), unhex(w[1]), proof)
 			if err != nil {
-				return "proof=bad"
+				return "proof=bad" + ns
 			}
 			if len(val) == 0 {
-				return "proof=ok val=-"
+				return "proof=ok val=-" + ns
 			}
-			return fmt.Sprintf("proof=ok val=%x", val)
+			return fmt.Sprintf("proof=ok val=%x", val) + ns
 		case "sdb":
 			a := 0
 			if len(w) > 2 {
@@ -316,6 +323,9 @@ func main() {
 				do("reopen")
 			default:
 				got := do("prove " + key)
+				if i := strings.Index(got, " nodes="); i >= 0 { // the node set is compared three ways; the oracle judges the verdict
+					got = got[:i]
+				}
 				want, ok := content[key]
 				if !ok {
 					want = "-"
